@@ -106,6 +106,15 @@ func (c *Client) validateVirtualChannelSettlementProposal(
 	}
 
 	// Validate signatures.
+	if len(prop.Final.Sigs) != len(prop.Final.Params.Parts) {
+		return errors.Errorf("expected %d signatures, got %d", len(prop.Final.Params.Parts), len(prop.Final.Sigs))
+	}
+	if err := prop.Final.State.Valid(); err != nil {
+		return errors.WithMessage(err, "invalid final state")
+	}
+	if prop.Final.State.NumParts() != len(prop.Final.Params.Parts) {
+		return errors.Errorf("expected balances for %d participants, got %d", len(prop.Final.Params.Parts), prop.Final.State.NumParts())
+	}
 	for i, sig := range prop.Final.Sigs {
 		for _, p := range prop.Final.Params.Parts[i] {
 			ok, err := channel.Verify(
@@ -141,6 +150,9 @@ func (c *Client) validateVirtualChannelSettlementProposal(
 	}
 
 	// Assert correct balances
+	if len(subAlloc.IndexMap) != prop.Final.State.NumParts() {
+		return errors.New("index map: invalid length")
+	}
 	virtual := transformBalances(prop.Final.State.Balances, parent.state().NumParts(), subAlloc.IndexMap)
 	correctBalances := parent.state().Balances.Add(virtual).Equal(prop.State.Balances)
 	if !correctBalances {
